@@ -42,6 +42,9 @@ FILEIDS = ["index.txt", "a.txt", "b.txt", "ref/index.txt", "ref/x.y.txt", "ref/d
 COLLIDING = ["a b", "a-b", "a$b", "a.b", "A b", "a_b", "x", "é x", "prog.--opt", "--opt", "-o", "-O", "Ünicode", "ünicode", "X"]
 
 
+COLONED = ["faq:sharding", "MongoDB\\Client::listDatabases()", "faq: sharding", "a:b", "x::y:z", ":lead"]
+
+
 def is_space(c):
     return RE_S.match(c) is not None
 
@@ -137,9 +140,30 @@ def lower_of_normalised(q):
     return re.sub(r"\s+", " ", q).lower()
 
 
+BASE2 = "https://other.example.org/docs/"  # same path as BASE: relative URIs (also `..`) join alike
+
+
+def rebase_diff(data, back, queries, resolved):
+    """the same bytes read under another base URL (two versions of one manual publish byte-identical inventories): each
+    reading belongs to the URL it was read under, and neither changes the other"""
+    other = Inventory.parse(BASE2, data)
+    if back.base_url != BASE or other.base_url != BASE2:
+        return f"base_url of the parsed inventories: {back.base_url!r} / {other.base_url!r}, read under {BASE!r} / {BASE2!r}"
+    if other.targets != back.targets or other.targets is back.targets:
+        return "the same bytes read under two base URLs give different (or shared) target tables"
+    got = consume(other, queries)
+    want = json.loads(json.dumps(resolved).replace("https://example.com/", "https://other.example.org/"))
+    if got != want:
+        i = next(i for i, (g, w) in enumerate(zip(got, want)) if g != w)
+        return f"{queries[i]!r} read under {BASE2!r} resolves to {got[i]}, under {BASE!r} to {resolved[i]}"
+    again = consume(Inventory.parse(BASE, data), queries)
+    if again != resolved:
+        return f"reading the inventory under {BASE!r} a second time resolves differently"
+    return None
+
+
 def consume(back, queries):
     """what another project's TargetDatabase answers for each key once it has loaded the inventory"""
-    back.base_url = BASE
     db = TargetDatabase(intersphinx_inventories={"exported": back})
     out = []
     for q in queries:
@@ -414,6 +438,10 @@ class C15(core.PropertyCheck):
         fids = rng.sample(FILEIDS, rng.randint(1, 4))
         # target ids are whitespace-normalised, as docutils delivers them
         pool = rng.sample(COLLIDING, rng.randint(2, 5)) + [re.sub(r"\s+", " ", self.g_name(rng))]
+        if rng.random() < 0.3:
+            # a name may hold ':' (`faq:sharding`, a PHP method `Client::listDatabases()`): the key is 'domain:role:name' and only its
+            # first two colons delimit
+            pool += rng.sample(COLONED, rng.randint(1, 2))
         pages = []
         for fid in fids:
             items = []
@@ -533,12 +561,13 @@ class C15(core.PropertyCheck):
             header = b"\n".join(parts[:4]) + b"\n"
             body = zlib.decompress(parts[4]).decode("utf-8")
             try:
-                back = Inventory.parse("", data)
+                back = Inventory.parse(BASE, data)
             except Exception as e:
                 return {"exc": "parse:" + type(e).__name__, "kept": kept, "file": header.decode("utf-8") + body}
+            resolved = consume(back, inv_queries(kept))
             return {"exc": None, "kept": kept, "file": header.decode("utf-8") + body,
                     "parsed": [td_to_json(key, t) for key, t in back.targets.items()],
-                    "resolved": consume(back, inv_queries(kept))}
+                    "resolved": resolved, "rebase": rebase_diff(data, back, inv_queries(kept), resolved)}
         if k == "lines":
             data = HEADER.format("p", "").encode("utf-8") + zlib.compress(case["text"].encode("utf-8"), 9)
             try:
@@ -564,7 +593,7 @@ class C15(core.PropertyCheck):
             res, defs = self.run_project(case)
             gen = res.targets.generate_inventory("")
             data = gen.dumps("verif", "")
-            back = Inventory.parse("", data)
+            back = Inventory.parse(BASE, data)
         except Exception as e:
             return {"exc": type(e).__name__, "msg": str(e)[:200]}
         pages = {}
@@ -580,7 +609,8 @@ class C15(core.PropertyCheck):
         return {"exc": None, "defs": defs,
                 "generated": [td_to_json(key, t) for key, t in gen.targets.items()],
                 "parsed": [td_to_json(key, t) for key, t in back.targets.items()], "pages": pages,
-                "resolved": consume(back, defs_queries(defs))}
+                "resolved": (resolved := consume(back, defs_queries(defs))),
+                "rebase": rebase_diff(data, back, defs_queries(defs), resolved)}
 
     # ------------------------------------------------------------------ model
     @functools.lru_cache(maxsize=4096)
@@ -721,13 +751,15 @@ class C15(core.PropertyCheck):
             if impl["exc"]:
                 return f"parse(dumps(inv)) raised {impl['exc']}" if all(wf_entry(e) for e in impl["kept"]) else None
             return (self.roundtrip_oracle(impl["kept"], impl["parsed"], "inventory")
-                    or self.resolve_oracle(impl["kept"], inv_queries(impl["kept"]), impl["resolved"], "inventory"))
+                    or self.resolve_oracle(impl["kept"], inv_queries(impl["kept"]), impl["resolved"], "inventory")
+                    or (impl.get("rebase") and "resolving: " + impl["rebase"]))
         if k != "project":
             return None
         if impl["exc"]:
             return f"building the inventory raised {impl['exc']}: {impl.get('msg')}"
         r = (self.roundtrip_oracle(impl["generated"], impl["parsed"], "generated inventory")
-             or self.resolve_oracle(impl["generated"], defs_queries(impl["defs"]), impl["resolved"], "generated inventory"))
+             or self.resolve_oracle(impl["generated"], defs_queries(impl["defs"]), impl["resolved"], "generated inventory")
+             or (impl.get("rebase") and "resolving: " + impl["rebase"]))
         if r:
             return r
         by_dir = {dirhtml_py(fid): (fid, pg) for fid, pg in impl["pages"].items()}
@@ -763,7 +795,10 @@ class C15(core.PropertyCheck):
                 if first.get(f"{role}:{canonical}") != (fid, a["id"]):
                     continue
                 key = f"{ALIASES.get(role, role)}:{canonical}"
-                if wf_entry({"name": canonical, "domain": a["domain"], "role": a["name"], "uri_base": "", "display": None}) and key not in parsed:
+                # a name holding ':' is outside the round-trip alphabet only because of names like 'a b:c 3 d'; without blanks
+                # in it the line format reads it back, so it is demanded too
+                colon_ok = ":" in canonical and not any(c.isspace() for c in canonical)
+                if (colon_ok or wf_entry({"name": canonical, "domain": a["domain"], "role": a["name"], "uri_base": "", "display": None})) and key not in parsed:
                     return f"target {a} of {fid} is not listed in the inventory (expected key {key!r})"
         return None
 
